@@ -432,7 +432,11 @@ func runMain(args []string) int {
 	budget := fs.Int64("budget", 0, "")
 	verifDir := fs.String("verif", "/verif", "")
 	work := fs.String("work", "", "scratch dir")
+	outDir := fs.String("out", "", "directory receiving evidence/ and replays/ (default: the -verif directory)")
 	fs.Parse(args)
+	if *outDir == "" {
+		*outDir = *verifDir
+	}
 	cd := Classes[*prop]
 	if cd == nil {
 		fmt.Fprintln(os.Stderr, "unknown property", *prop)
@@ -611,7 +615,7 @@ func runMain(args []string) int {
 			h = shrinkCrash(h, *prop, *work)
 		}
 		rf := &ReplayFile{Property: *prop, Class: cl, Detail: v.Detail, Op: v.Op, OrigOps: v.OrigOps, History: h, Readable: h.Describe()}
-		path := filepath.Join(*verifDir, "replays", fmt.Sprintf("%s-%s-seed%d-run%d.json", *prop, cl, *seed, v.Run))
+		path := filepath.Join(*outDir, "replays", fmt.Sprintf("%s-%s-seed%d-run%d.json", *prop, cl, *seed, v.Run))
 		if err := writeJSON(path, rf); err != nil {
 			fmt.Fprintln(os.Stderr, "HARNESS ERROR:", err)
 			return 2
@@ -701,7 +705,7 @@ func runMain(args []string) int {
 			"bounds of the generator (types, scopes, ops, nesting) as in DESIGN.md §4; nothing is claimed outside them",
 		},
 	}
-	if err := writeJSON(filepath.Join(*verifDir, "evidence", *prop+".json"), ev); err != nil {
+	if err := writeJSON(filepath.Join(*outDir, "evidence", *prop+".json"), ev); err != nil {
 		fmt.Fprintln(os.Stderr, "HARNESS ERROR:", err)
 		return 2
 	}
